@@ -125,6 +125,22 @@ func init() {
 
 const nHandSets = 30
 
+// mergeJobs concatenates job lists, dropping jobs that are already present.
+func mergeJobs(lists ...[]*Job) []*Job {
+	seen := map[string]bool{}
+	var out []*Job
+	for _, l := range lists {
+		for _, j := range l {
+			k := j.String()
+			if !seen[k] {
+				seen[k] = true
+				out = append(out, j)
+			}
+		}
+	}
+	return out
+}
+
 func lookupJobs(h string, nsets, maxLh, maxLp int) []*Job {
 	var js []*Job
 	for s := 0; s < nsets; s++ {
@@ -142,13 +158,15 @@ func init() {
 		ID: "C01",
 		Jobs: func(tier string) []*Job {
 			if tier == "thorough" {
-				return append(lookupJobs("C01Lookup", nHandSets+107, 4, 7), lookupJobs("C01Agree", nHandSets+107, 3, 5)...)
+				// everything the quick tier covers (paths of 7 bytes on the first sets), plus more sets and longer hosts
+				js := mergeJobs(lookupJobs("C01Lookup", nHandSets+47, 3, 7), lookupJobs("C01Lookup", nHandSets+87, 4, 6))
+				return append(js, lookupJobs("C01Agree", nHandSets+87, 3, 5)...)
 			}
 			return append(lookupJobs("C01Lookup", nHandSets+47, 3, 7), lookupJobs("C01Agree", nHandSets+47, 2, 5)...)
 		},
 		Bounds: func(tier string) string {
 			if tier == "thorough" {
-				return fmt.Sprint(nHandSets+107) + " corpus route sets x every Host of 0..4 bytes x every path of 1..7 bytes (full byte alphabet, no empty segment), method GET, each answer re-checked three times on recycled contexts; entry-point agreement (ServeHTTP after three priming requests, Lookup, Reverse, Iter.Reverse, Txn read/write Lookup+Reverse) on the same sets with Host 0..3, path 1..5"
+				return fmt.Sprint(nHandSets+87) + " corpus route sets x every Host of 0..4 bytes x every path of 1..6 bytes (on the first " + fmt.Sprint(nHandSets+47) + " sets with Host 0..3 also paths of 7 bytes; full byte alphabet, no empty segment), method GET, each answer re-checked three times on recycled contexts; entry-point agreement (ServeHTTP after three priming requests, Lookup, Reverse, Iter.Reverse, Txn read/write Lookup+Reverse) on the same sets with Host 0..3, path 1..5"
 			}
 			return fmt.Sprint(nHandSets+47) + " corpus route sets x every Host of 0..3 bytes x every path of 1..7 bytes (full byte alphabet, no empty segment), method GET, each answer re-checked three times on recycled contexts; entry-point agreement (ServeHTTP after three priming requests, Lookup, Reverse, Iter.Reverse, Txn read/write Lookup+Reverse) on the same sets with Host 0..2, path 1..5"
 		},
@@ -165,10 +183,10 @@ func init() {
 			dlp, dlq := 4, 1
 			isets, ilp := nHandSets+13, 5
 			if tier == "thorough" {
-				js = lookupJobs("C08Tsr", nHandSets+107, 4, 7)
-				dsets = []int{0, 6, 7, 8, 9, 13, 15, 17, 18, nHandSets + 3, nHandSets + 6, nHandSets + 8}
+				js = lookupJobs("C08Tsr", nHandSets+77, 4, 7)
+				dsets = []int{0, 6, 7, 8, 9, 13, 15, 17, 18}
 				dlp, dlq = 5, 2
-				isets, ilp = nHandSets+43, 6
+				isets, ilp = nHandSets+33, 6
 			} else {
 				js = lookupJobs("C08Tsr", nHandSets+47, 3, 7)
 			}
@@ -214,7 +232,7 @@ func init() {
 		},
 		Bounds: func(tier string) string {
 			if tier == "thorough" {
-				return "C08(a-c): " + fmt.Sprint(nHandSets+107) + " corpus route sets x every Host of 0..4 bytes x every path of 2..7 bytes (full byte alphabet, no empty segment), method GET; (d,e): 12 sets registered under GET/POST/CONNECT x 6 trailing-slash configurations (all ignore, all redirect, none, mixed per route, router-wide redirect with per-route ignore, router-wide ignore with per-route redirect) x every path of 2..5 bytes x every printable raw query of 0..2 bytes, Location resolved by an RFC 3986 reference resolver; (f): 63 sets x 9 extra routes x every path of 2..6 bytes (Host 0 and 2 bytes)"
+				return "C08(a-c): " + fmt.Sprint(nHandSets+77) + " corpus route sets x every Host of 0..4 bytes x every path of 2..7 bytes (full byte alphabet, no empty segment), method GET; (d,e): 9 sets registered under GET/POST/CONNECT x 6 trailing-slash configurations (all ignore, all redirect, none, mixed per route, router-wide redirect with per-route ignore, router-wide ignore with per-route redirect) x every path of 2..5 bytes x every printable raw query of 0..2 bytes, Location resolved by an RFC 3986 reference resolver; (f): " + fmt.Sprint(nHandSets+33-1) + " sets x 9 extra routes x every path of 2..6 bytes (Host 0 and 2 bytes)"
 			}
 			return "C08(a-c): " + fmt.Sprint(nHandSets+47) + " corpus route sets x every Host of 0..3 bytes x every path of 2..7 bytes (full byte alphabet, no empty segment), method GET; (d,e): 5 sets registered under GET/POST/CONNECT x 6 trailing-slash configurations (incl. router-wide ignore with per-route redirect) x every path of 2..3 bytes (2..4 without redirect, and on one set with it) x every printable raw query of 0..1 bytes, Location resolved by an RFC 3986 reference resolver, plus percent-encoded requests (RawPath set, every valid raw path of 5 bytes and, on two sets, 7 bytes); (f): 33 sets x 9 extra routes x every path of 2..5 bytes (Host 0 and 2 bytes)"
 		},
@@ -304,14 +322,16 @@ func c02Jobs(tier string) []*Job {
 			add(s, 2, 2, 0, 4)
 			add(s, 1, 2, 3, 18)
 		} else if tier == "thorough" {
-			add(s, 2, 2, 0, 12)
+			add(s, 2, 2, 0, 8)
 			if s <= 0 {
-				add(s, 3, 2, 0, 4)
+				add(s, 3, 2, 0, 2)
 			}
 			for n := 1; n <= 4; n++ {
-				add(s, 1, 2, n, 18)
+				if n <= 3 || s <= 0 {
+					add(s, 1, 2, n, 18)
+				}
 			}
-			if s <= 1 {
+			if s <= 0 {
 				add(s, 2, 2, 3, 6)
 			}
 		} else if s == 16 {
@@ -352,7 +372,7 @@ func init() {
 		Jobs: c02Jobs,
 		Bounds: func(tier string) string {
 			if tier == "thorough" {
-				return "11 start sets (empty, hand and generated corpus sets incl. hostnames and the 60-sibling fan-out) x histories of k<=2 writes (k=3 from two of the sets; Handle, HandleRoute, Update, UpdateRoute, Delete, Truncate(all), Truncate(method)) issued directly or in a committed/aborted transaction, methods {GET,FOO}, patterns from a 12-entry pool (4 for k=3) (and two 4-entry pools: hostnames that are label-wise prefixes of each other, from the empty router; a route on an existing branching node plus routes below it, from the siblings-3 set); plus a first write with a symbolic pattern of 1..4 arbitrary bytes; every reader checked after every step"
+				return "11 start sets (empty, hand and generated corpus sets incl. hostnames and the 60-sibling fan-out) x histories of k<=2 writes (k=3 from two of the sets; Handle, HandleRoute, Update, UpdateRoute, Delete, Truncate(all), Truncate(method)) issued directly or in a committed/aborted transaction, methods {GET,FOO}, patterns from an 8-entry pool (2 for k=3) (and two 4-entry pools: hostnames that are label-wise prefixes of each other, from the empty router; a route on an existing branching node plus routes below it, from the siblings-3 set); plus a first write with a symbolic pattern of 1..3 arbitrary bytes (1..4 from two of the sets); every reader checked after every step"
 			}
 			return "7 start sets x histories of k<=2 writes (7 kinds) direct / committed txn / aborted txn, with and without an iterator on the open transaction between the steps, methods {GET,FOO}, 6..8-entry pattern pool (12 for k=1), and two 4-entry pools (hostnames that are label-wise prefixes of each other, from the empty router; a route on an existing branching node plus routes below it, from the siblings-3 set); plus a first write with a symbolic pattern of 1..4 arbitrary bytes (k=1; 1..3 on four of the sets) and 2 bytes (k=2); every reader (Has, Route, Len, Reverse, Iter.All/Methods/Prefix per method and over all methods/Routes/Reverse) checked after every step, on the router, on the open transaction and on a snapshot of it"
 		},
@@ -367,7 +387,7 @@ func init() {
 		Jobs: func(tier string) []*Job {
 			nsets, maxLh, maxLp := nHandSets+23, 2, 5
 			if tier == "thorough" {
-				nsets, maxLh, maxLp = nHandSets+33, 3, 6
+				nsets, maxLh, maxLp = nHandSets+43, 2, 6
 			}
 			var js []*Job
 			for s := 0; s < nsets; s++ {
@@ -386,7 +406,7 @@ func init() {
 		},
 		Bounds: func(tier string) string {
 			if tier == "thorough" {
-				return fmt.Sprint(nHandSets+33-1) + " corpus route sets (routes alternately GET/POST) x 11 history shapes (an aborted caching transaction registering every unregistered prefix and routes right below it, every unregistered route prefix inserted and deleted again, reverse, interleaved, extras inserted+deleted after / before, update in place, delete+reinsert each, truncate+refill in one txn, aborted txn full of writes, delete all + reinsert reversed) x request method in {GET,POST,DELETE,OPTIONS} x every Host of 0..3 bytes x every path of 1..6 bytes; 405 and auto-OPTIONS enabled"
+				return fmt.Sprint(nHandSets+43-1) + " corpus route sets (routes alternately GET/POST) x 11 history shapes (an aborted caching transaction registering every unregistered prefix and routes right below it, every unregistered route prefix inserted and deleted again, reverse, interleaved, extras inserted+deleted after / before, update in place, delete+reinsert each, truncate+refill in one txn, aborted txn full of writes, delete all + reinsert reversed) x request method in {GET,POST,DELETE,OPTIONS} x every Host of 0..2 bytes x every path of 1..6 bytes; 405 and auto-OPTIONS enabled"
 			}
 			return fmt.Sprint(nHandSets+23-1) + " corpus route sets (routes alternately GET/POST) x 11 history shapes x request method in {GET,POST,DELETE,OPTIONS} x every Host of 0..2 bytes x every path of 1..5 bytes; 405 and auto-OPTIONS enabled"
 		},
@@ -454,7 +474,7 @@ func init() {
 			pool := 6
 			if tier == "thorough" {
 				sets = []int{-1, 0, 6, 11, 14, 17}
-				lps = []int{2, 4}
+				lps = []int{3, 4}
 				pool = 8
 			}
 			for _, s := range sets {
@@ -516,7 +536,11 @@ func init() {
 				js = append(js, &Job{Harness: "C04Txn", Params: map[string]int{"set": s, "k": 1, "pool": 12, "iter": 1}})
 				if tier == "thorough" {
 					js = append(js, &Job{Harness: "C04Txn", Params: map[string]int{"set": s, "k": 2, "pool": 4, "iter": 1}})
-					js = append(js, &Job{Harness: "C04Txn", Params: map[string]int{"set": s, "k": 2, "pool": 6, "iter": 0}})
+					pl2 := 6
+					if s == 17 {
+						pl2 = 8 // includes the siblings that sort before the registered ones
+					}
+					js = append(js, &Job{Harness: "C04Txn", Params: map[string]int{"set": s, "k": 2, "pool": pl2, "iter": 0}})
 					if s <= 0 {
 						js = append(js, &Job{Harness: "C04Txn", Params: map[string]int{"set": s, "k": 3, "pool": 2, "iter": 0}})
 					}
